@@ -58,6 +58,13 @@ def check_level(chk, level, tbl, fi, names, file=ATTR):
             chk.bad("R1", key, file, fi.line, "documented instruction name is not recognised at this level", found="no arm")
             continue
         for var, st, ks, flags in tbl[n]:
+            if "fallible" in st.fields and re.fullmatch(r"(owned_|ref_)?(try_)?(into|from|map)(_owned|_ref|_existing)?", n):
+                fv = st.fields["fallible"]
+                want = "try" in n.split("_")
+                if isinstance(fv, bool):
+                    chk.expect("R1", key + "/fallible", fv == want, file, fi.line, "fallibility flag of the instruction disagrees with its name (try_ forms are fallible, all others are not)", expected=want, found=fv)
+                else:
+                    chk.inconc("R1", f"{key}/fallible: flag is not a constant the evaluator can decide: {vkey(fv)[:80]}")
             if n in BASIC_VECTORS:
                 chk.expect("R1", key, ks == BASIC_VECTORS[n], file, fi.line, "basic instruction is not a unit vector for its own kind", expected=sorted(BASIC_VECTORS[n]), found=sorted(ks))
             if n in EXPANSION:
@@ -197,6 +204,24 @@ def r3(chk):
     # and every documented shortcut/basic with a bare form is registered
     for name in TRAIT_NAMES + ["ghost", "ghosts", "child", "child_parents", "parent", "where_clause", "literal", "pattern", "type_hint", "o2o"]:
         chk.expect("R3", f"registered[{name}]", name in reg, "o2o-macros/src/lib.rs", line, "documented bare attribute is not registered on the derive (rustc would reject it)", found=name)
+
+
+def import_parse_contracts(chk, rule, levels=("type", "member", "nested-parent")):
+    """Other properties take `applicable_to[kind]` / `fallible` of a parsed instruction as given; the contract of the name tables
+    (name -> kinds, fallibility) is imported here as a rule of the importing property."""
+    from ..core import Check
+    sub = Check("C12", chk.repo, chk.tier)
+    sub.guard("R1", lambda: r1(sub))
+    chk.rule(rule, "contract of the instruction-name tables this property's lookups rely on (name -> applicable kinds and fallibility, shortcut = OR of basics)", floor=20)
+    for r_, why in sub.inconclusive:
+        chk.inconc(rule, why)
+    for i in sub.instances:
+        if i.rule != "R1" or not any(i.key.startswith(lv + "[") for lv in levels):
+            continue
+        if i.ok:
+            chk.ok(rule, "names:" + i.key, i.file, i.line)
+        else:
+            chk.bad(rule, "names:" + i.key, i.file, i.line, i.what, i.expected, i.found)
 
 
 def run(chk):
